@@ -54,6 +54,7 @@ LEAF_ANN = {"int": "int", "float": "float", "bool": "bool", "str": "str", "bytes
             "datetime": "datetime.datetime", "date": "datetime.date", "time": "datetime.time",
             "timedelta": "datetime.timedelta", "uuid": "uuid.UUID", "decimal": "decimal.Decimal",
             "ipv4": "ipaddress.IPv4Address", "none": "None"}
+SMALL_LEAVES = ["int", "float", "bool", "str", "bytes", "bytearray", "datetime", "date", "time", "uuid", "decimal"]
 HASHABLE_LEAVES = ["int", "str", "date", "uuid", "bytes", "time", "bool"]
 KEY_LEAVES = ["str", "str", "str", "str", "int", "date", "uuid"]
 
@@ -131,8 +132,9 @@ def kinds_deep(t: T, S, acc=None, seen=None) -> set:
 class Schema:
     """A generated module: enums, named tuples, typed dicts, dataclasses (source text) + descriptors."""
 
-    def __init__(self, rng, jsonkind: str):
+    def __init__(self, rng, jsonkind: str, small: bool = False):
         self.rng = rng
+        self.small = small                 # grammar of the Coq model (Format.v) only
         self.jsonkind = jsonkind           # which JSON mixin root classes carry: "json" | "orjson"
         self.defs: list[str] = []
         self.n = 0
@@ -201,8 +203,10 @@ class Schema:
                 x = r.random()
                 if x < 0.72:
                     f[2] = "None"
-                elif x < 0.80 and t.args[0].kind == "int":
+                elif x < 0.80 and t.args[0].kind == "int" and not self.small:
                     f[2] = "7"
+            elif self.small:
+                pass
             elif t.kind == "int" and r.random() < 0.2:
                 f[2] = "3"
             elif t.kind == "list" and r.random() < 0.2:
@@ -260,6 +264,18 @@ class Schema:
 
     def gen_type(self, depth, allow_classes=True) -> T:
         r = self.rng
+        if self.small:
+            if depth <= 0 or r.random() < 0.45:
+                return T(r.choice(SMALL_LEAVES))
+            c = r.choice(["list", "dict", "opt", "opt", "dc", "dc"])
+            if c == "list":
+                return T("list", self.gen_type(depth - 1))
+            if c == "dict":
+                return T("dict", T("str"), self.gen_type(depth - 1))
+            if c == "opt":
+                inner = self.gen_type(depth - 1)
+                return inner if inner.kind == "opt" else T("opt", inner)
+            return self.new_dc(depth - 1)
         if depth <= 0 or r.random() < 0.42:
             return self.gen_leaf()
         choices = ["list", "list", "dict", "dict", "opt", "opt", "opt", "tuplevar", "tuplefix", "set", "frozenset",
@@ -804,3 +820,121 @@ class Entry:
             return v.to_dict()
         from mashumaro.codecs.basic import BasicEncoder
         return BasicEncoder(self.shape).encode(v)
+
+
+# ---------------------------------------------------------------------------
+# crossing to Coq (Format.v / FormatCases.v): small grammar only
+# ---------------------------------------------------------------------------
+
+LKIND = {"bytes": "KBytes", "bytearray": "KBytearray", "datetime": "KDatetime", "date": "KDate", "time": "KTime",
+         "uuid": "KUuid", "decimal": "KText"}
+FMT = {"json": "FJson", "orjson": "FOrjson", "yaml": "FYaml", "msgpack": "FMsgpack", "toml": "FToml"}
+
+
+def _cs(x):
+    from harness.vlib import coq_str
+    return coq_str(x)
+
+
+def coq_float(f: float) -> str:
+    import struct
+    if math.isnan(f):
+        return "FNan"
+    if math.isinf(f):
+        return "(FInf %s)" % ("true" if f < 0 else "false")
+    return "(FFin %d)" % struct.unpack(">Q", struct.pack(">d", f))[0]
+
+
+def coq_ty(t: T, S: Schema) -> str:
+    k = t.kind
+    if k in ("int", "float", "bool", "str"):
+        return {"int": "TInt", "float": "TFloat", "bool": "TBool", "str": "TStr"}[k]
+    if k in LKIND:
+        return f"(TLeaf {LKIND[k]})"
+    if k == "list":
+        return f"(TList {coq_ty(t.args[0], S)})"
+    if k == "dict":
+        assert t.args[0].kind == "str"
+        return f"(TDict {coq_ty(t.args[1], S)})"
+    if k == "opt":
+        return f"(TOpt {coq_ty(t.args[0], S)})"
+    if k == "dc":
+        fs = S.classes[t.name]["fields"]
+        return "(TRec %s [%s])" % (_cs(t.name), "; ".join(
+            "(%s, (%s, %s))" % (_cs(f), coq_ty(ft, S), "true" if d == "None" else "false") for f, ft, d in fs))
+    raise ValueError(k)
+
+
+def leaf_payload(v) -> tuple[str, str, str]:
+    """(kind, payload, stdlib rendering) of a leaf value; independent of mashumaro"""
+    if isinstance(v, bytearray):
+        return "KBytearray", bytes(v).hex(), base64.encodebytes(bytes(v)).decode()
+    if isinstance(v, bytes):
+        return "KBytes", v.hex(), base64.encodebytes(v).decode()
+    if isinstance(v, dt.datetime):
+        return "KDatetime", v.isoformat(), v.isoformat()
+    if isinstance(v, dt.date):
+        return "KDate", v.isoformat(), v.isoformat()
+    if isinstance(v, dt.time):
+        return "KTime", v.isoformat(), v.isoformat()
+    if isinstance(v, uuid.UUID):
+        return "KUuid", str(v), str(v)
+    if isinstance(v, decimal.Decimal):
+        return "KText", str(v), str(v)
+    raise TypeError(type(v))
+
+
+def coq_pv(v, t: T, S: Schema, tab: list, unrepr: dict) -> str:
+    k = t.kind
+    if k == "opt":
+        return "VNone" if v is None else coq_pv(v, t.args[0], S, tab, unrepr)
+    if k == "int":
+        return f"(VInt ({v}))"
+    if k == "float":
+        return f"(VFloat {coq_float(v)})"
+    if k == "bool":
+        return "(VBool %s)" % ("true" if v else "false")
+    if k == "str":
+        return f"(VStr {_cs(v)})"
+    if k in LKIND:
+        kind, p, text = leaf_payload(v)
+        tab.append((kind, p, text))
+        if isinstance(v, dt.time) and v.tzinfo is not None:
+            for F in ("orjson", "toml"):
+                unrepr.setdefault(F, []).append((kind, p))
+        if isinstance(v, dt.datetime) and not _whole_minute(v):
+            for F in ("orjson", "toml"):
+                unrepr.setdefault(F, []).append((kind, p))
+        return f"(VLeaf {kind} {_cs(p)})"
+    if k == "list":
+        return "(VList [%s])" % "; ".join(coq_pv(x, t.args[0], S, tab, unrepr) for x in v)
+    if k == "dict":
+        return "(VDict [%s])" % "; ".join(f"({_cs(a)}, {coq_pv(x, t.args[1], S, tab, unrepr)})" for a, x in v.items())
+    if k == "dc":
+        return "(VObj %s [%s])" % (_cs(t.name), "; ".join(
+            f"({_cs(f)}, {coq_pv(getattr(v, f), ft, S, tab, unrepr)})" for f, ft, _ in S.classes[t.name]["fields"]))
+    raise ValueError(k)
+
+
+def coq_bv(b) -> str:
+    if b is None:
+        return "BNone"
+    if isinstance(b, bool):
+        return "(BBool %s)" % ("true" if b else "false")
+    if isinstance(b, int):
+        return f"(BInt ({b}))"
+    if isinstance(b, float):
+        return f"(BFloat {coq_float(b)})"
+    if isinstance(b, str):
+        return f"(BStr {_cs(b)})"
+    if isinstance(b, (bytes, bytearray, dt.datetime, dt.date, dt.time, uuid.UUID)):
+        kind, p, _ = leaf_payload(b)
+        return f"(BNat {kind} {_cs(p)})"
+    if isinstance(b, (list, tuple)):
+        return "(BList [%s])" % "; ".join(coq_bv(x) for x in b)
+    if isinstance(b, dict):
+        for k in b:
+            if type(k) is not str:
+                raise TypeError("non-str key")
+        return "(BDict [%s])" % "; ".join(f"({_cs(k)}, {coq_bv(x)})" for k, x in b.items())
+    raise TypeError(type(b))
